@@ -38,7 +38,9 @@ EXPECTED_PROBES = ["write_pandas", "write_dask", "read_pandas", "read_dask", "re
                    "read_dask_list_unsorted", "read_dask_list_mixing_glob_and_path",
                    "twin_slices_of_one_parent_array",
                    "read_dask_glob", "columns_projection", "nonfloat64_subtype",
-                   "sliced_or_concat_backing", "ge_11_partitions"]
+                   "sliced_or_concat_backing", "ge_11_partitions",
+                   "dataset_written_again_at_same_path", "dataset_written_from_a_frame_read_back",
+                   "earlier_lazy_read_computed_again"]
 
 
 def cases(tier, base_seed):
@@ -93,6 +95,31 @@ def cases(tier, base_seed):
             else:
                 steps.append({"op": "read_dask", "how": "mixed", "ds": ["D0", "D1", "D2"],
                               "glob_first": rng.random() < 0.5, "columns": proj()})
+        if rng.random() < 0.35:
+            # second phase: datasets written AGAIN at the same paths (other rows, other
+            # partition count) after they were read, a dataset written from a frame that
+            # was itself read back, and more reads - what is read is always the latest write
+            for _ in range(rng.randint(1, 3)):
+                r = rng.random()
+                if r < 0.3:
+                    rows = list(range(n))
+                    rng.shuffle(rows)
+                    steps.append({"op": "write_pandas", "ds": "P", "again": True,
+                                  "rows": rows[: rng.randint(1, n)], "compression": comp()})
+                    steps.append({"op": "read_pandas", "ds": "P", "columns": proj()})
+                elif r < 0.7:
+                    rows = list(range(n))
+                    rng.shuffle(rows)
+                    steps.append({"op": "write_dask", "ds": "D0", "again": True,
+                                  "rows": rows[: rng.randint(1, n)],
+                                  "nparts": rng.choice((1, 2, 3, 5)), "compression": comp()})
+                    steps.append({"op": "read_dask", "how": "path", "ds": ["D0"],
+                                  "columns": proj()})
+                else:
+                    steps.append({"op": "copy_dask", "src": "D0", "ds": "D3",
+                                  "compression": comp()})
+                    steps.append({"op": "read_dask", "how": "path", "ds": ["D3"],
+                                  "columns": proj()})
         twins = None
         if n >= 4 and rng.random() < 0.2:
             # two frames whose geometry columns are equally long slices of ONE parent array,
@@ -177,10 +204,15 @@ def _drive_steps(case, root, fs, probes, sig):
     os.makedirs(os.path.join(root, "dk2"))
     paths = {"P": os.path.join(root, "pd", "P.parquet"),
              "D0": os.path.join(root, "dk", "ds_0"), "D1": os.path.join(root, "dk", "ds_1"),
-             "D2": os.path.join(root, "dk2", "extra")}
+             "D2": os.path.join(root, "dk2", "extra"), "D3": os.path.join(root, "dk2", "copy")}
+    lazy = []        # (lazy frame, rows, columns, version of its dataset when it was read)
+    version = {}
     for step in case["steps"]:
         op = step["op"]
         sig["op"] = op
+        if step.get("again"):
+            probes["dataset_written_again_at_same_path"] = 1
+            sig["again"] = True
         if op == "write_pandas":
             probes["write_pandas"] = 1
             gdf = e3.build_store_frame(spec, step["rows"])
@@ -195,10 +227,23 @@ def _drive_steps(case, root, fs, probes, sig):
             if len(gdf) == 0:
                 continue
             ddf = e3.make_ddf(gdf, {"mode": "even", "k": max(1, min(step["nparts"], len(gdf)))})
+            over = {"overwrite": True} if step.get("again") else {}
             _guard("DaskGeoDataFrame.to_parquet",
                    lambda: ddf.to_parquet("simfs://" + paths[step["ds"]],
-                                          compression=step["compression"]), sig)
+                                          compression=step["compression"], **over), sig)
             model[step["ds"]] = step["rows"]
+            version[step["ds"]] = version.get(step["ds"], 0) + 1
+        elif op == "copy_dask":
+            if step["src"] not in model:
+                continue
+            probes["dataset_written_from_a_frame_read_back"] = 1
+            src = _guard("read_parquet_dask", lambda: read_parquet_dask(
+                paths[step["src"]], filesystem=fs), sig)
+            _guard("DaskGeoDataFrame.to_parquet (of a frame read back)",
+                   lambda: src.to_parquet("simfs://" + paths[step["ds"]],
+                                          compression=step["compression"], overwrite=True), sig)
+            model[step["ds"]] = list(model[step["src"]])
+            version[step["ds"]] = version.get(step["ds"], 0) + 1
         elif op == "read_pandas":
             if "P" not in model:
                 continue
@@ -258,6 +303,17 @@ def _drive_steps(case, root, fs, probes, sig):
             order = dss if step["how"] in ("list", "mixed") else sorted(dss)
             rows = [r for d in order for r in model[d]]
             _compare(got, spec, rows, cols, f"read_parquet_dask[{step['how']}]", GeoDataFrame, sig)
+            lazy.append((ddf, rows, given, {d: version.get(d, 0) for d in dss}))
+    # lazy frames read earlier and still alive: computing them again (now that other reads and
+    # writes have happened) gives the same rows, unless their dataset was written again since
+    for ddf, rows, cols, ver in lazy[:-1]:
+        if any(version.get(d, 0) != v for d, v in ver.items()):
+            continue
+        probes["earlier_lazy_read_computed_again"] = 1
+        sig["op"] = "recompute_earlier_read"
+        got = _guard("compute of an earlier read", lambda: ddf.compute(), sig)
+        _compare(got, spec, rows, cols, "read_parquet_dask[computed again later]", GeoDataFrame,
+                 sig)
 
 
 def _twins(case, root, fs, probes, sig):
